@@ -426,3 +426,65 @@ def g2b_identifier_generation_after_activation(prog):
                     r.viol('G2b', name + '/generation-read-before-activation', f.loc(ds['ln']),
                            'the generation stored in the returned identifier is read from the slot before activate_unchecked bumps it: the identifier returned (and stored in the archetype) is one generation stale and does not resolve')
     return r
+
+
+@rule('A3', props=['C02', 'C13', 'C01'], floor=10, configs=('all', 'default'))
+def a3_allocator_internals_stay_inside(prog):
+    """The slot table, the free queue and a slot's generation/location are read and written only by code of the
+    `entity::allocator` module (the allocator, its slots, its serde impl): every other part of the crate resolves an
+    identifier through `Allocator::get` / `is_active` (whose generation comparison G1 checks) and changes it through
+    the allocator's methods. A projection of `Allocator.slots`, `Allocator.free`, `Slot.generation` or `Slot.location`
+    in a function outside that module bypasses the generation check (a stale identifier resolves) or the free-list
+    discipline."""
+    r = Result()
+    fields = {}
+    for path, names in (('entity::allocator::Allocator', ('slots', 'free')), ('entity::allocator::slot::Slot', ('generation', 'location'))):
+        adt = prog.adts.get(path)
+        if adt is None:
+            r.viol('A3', 'missing/' + path, '-', 'type not found')
+            return r
+        fn_ = [x['name'] for x in adt['variants'][0]['fields']]
+        for n in names:
+            if n not in fn_:
+                r.viol('A3', 'missing/%s.%s' % (path, n), '-', 'field not found')
+                return r
+            fields[(path, fn_.index(n))] = n
+    seen = set()
+    for f in prog.fns.values():
+        body = f.body
+        inside = f.path.startswith('entity::allocator::') or f.path.startswith('<entity::allocator::') or 'for entity::allocator::' in f.path or f.dp.startswith('brood::entity::allocator::')
+        touched = set()
+        for b, i, s in body.stmts():
+            if s['k'] != 'assign':
+                continue
+            places = list(rv_operands(s['rv'])) + [s['place']]
+            if s['rv']['k'] in ('ref', 'rawptr', 'discr', 'len'):
+                places.append(s['rv']['place'])
+            for p in places:
+                for j, e in enumerate(p['p']):
+                    if isinstance(e, dict) and 'f' in e:
+                        base = peel_refs(body.place_ty({'l': p['l'], 'p': p['p'][:j]}))
+                        if base is not None and base.get('k') == 'adt' and (base['path'], e['f']) in fields:
+                            touched.add('%s.%s' % (base['path'].rsplit('::', 1)[-1], fields[(base['path'], e['f'])]))
+        for b, t in body.calls():
+            for a in t['args']:
+                p = op_place(a)
+                if p is None:
+                    continue
+                for j, e in enumerate(p['p']):
+                    if isinstance(e, dict) and 'f' in e:
+                        base = peel_refs(body.place_ty({'l': p['l'], 'p': p['p'][:j]}))
+                        if base is not None and base.get('k') == 'adt' and (base['path'], e['f']) in fields:
+                            touched.add('%s.%s' % (base['path'].rsplit('::', 1)[-1], fields[(base['path'], e['f'])]))
+        if not touched:
+            continue
+        top = f
+        while top.kind == 'Closure' and top.parent in prog.fns:
+            top = prog.fns[top.parent]
+        if inside:
+            if top.dp not in seen:
+                seen.add(top.dp)
+                r.inst('%s touches %s' % (top.path[:80], sorted(touched)))
+        else:
+            r.viol('A3', '%s/touches-allocator-internals' % top.path, f.loc(), 'function %s outside the allocator module accesses %s directly: identifiers must be resolved through Allocator::get / is_active (generation check) and changed through the allocator\'s methods' % (top.name, sorted(touched)))
+    return r
